@@ -50,12 +50,16 @@ def fault_env(log):
 
     def wait_with_output(it, child):
         log['waited'] = True
-        success = it.truth(it.fresh('exit_success', 'bool'))
+        how = it.concretize(it.fresh('exit_kind', 8), [0, 1, 2])          # 0 exit(0), 1 exit(non-zero), 2 killed by a signal (no exit code)
+        if how is None:
+            how = 1
+        success = how == 0
         kind = it.concretize(it.fresh('stdout_kind', 8), [0, 1, 2])
         if kind is None:
             kind = 0
-        log['success'], log['stdout'] = success, kind
-        return ok(Agg('Output', [Agg('ExitStatus', [success]), OutBytes(kind), VecV()]))
+        log['success'], log['stdout'], log['how'] = success, kind, how
+        status = Agg('ExitStatus', [success, some(0) if how == 0 else (some(1) if how == 1 else none()), some(9) if how == 2 else none()])
+        return ok(Agg('Output', [status, OutBytes(kind), VecV()]))
 
     def from_utf8(it, b):
         if not isinstance(b, OutBytes):
@@ -74,9 +78,11 @@ FAKES = {
     'exit1_without_reading': '#!/bin/sh\nexec 0<&-\nexit 1\n',
     'killed': '#!/bin/sh\nkill -9 $$\n',
     'killed_after_reading': '#!/bin/sh\ncat > /dev/null\nkill -9 $$\n',
+    'killed_after_partial_output': '#!/bin/sh\ncat > /dev/null\necho "pub mod partial {"\nkill -9 $$\n',
     'empty_output': '#!/bin/sh\ncat > /dev/null\nexit 0\n',
     'invalid_utf8': '#!/bin/sh\ncat > /dev/null\nprintf "\\377\\376"\nexit 0\n',
-    'working': '#!/bin/sh\ncat\nexit 0\n',
+    # like the real rustfmt, read everything before printing (a streaming filter would dead-lock on outputs above the pipe buffer)
+    'working': '#!/bin/sh\nt=$(mktemp)\ncat > "$t"\ncat "$t"\nrm -f "$t"\nexit 0\n',
 }
 
 
@@ -85,12 +91,14 @@ def scenario_of(log):
         return 'absent'
     if not log.get('write'):
         return 'exit0_without_reading' if log.get('success') else 'exit1_without_reading'
+    if log.get('how') == 2:
+        return 'killed_after_partial_output' if log.get('stdout') else 'killed_after_reading'
     if not log.get('success'):
         return 'exit1_after_reading'
     return {0: 'empty_output', 1: 'working', 2: 'invalid_utf8'}[log.get('stdout', 0)]
 
 
-def native(ctx, scenario, big):
+def native_run(ctx, scenario, big):
     """run the REAL generator with rustfmt = the fake; returns ('ok', text) | ('panic', msg) and the unformatted reference"""
     d = tempfile.mkdtemp(prefix='fakefmt', dir=os.path.join(VERIF, '.cache'))
     try:
@@ -161,9 +169,9 @@ def run(ctx):
             continue
         rep, det = False, None
         for big in (True, False):
-            r, r0 = native(ctx, sc, big)
+            r, r0 = native_run(ctx, sc, big)
             det = {'scenario': sc, 'fake_rustfmt': FAKES[sc], 'output_over_64KiB': big, 'real': str(r)[:200]}
-            if 'panic' in r or 'crash' in r:
+            if 'panic' in r or 'crash' in r or 'hang' in r:
                 rep = True
             elif 'ok' in r and 'ok' in r0 and not same_program(ctx, r['ok'], r0['ok']):
                 rep = True
@@ -216,10 +224,16 @@ def run(ctx):
                 ctx.report('C19/real-rustfmt-differs', f'real rustfmt output is a different program for {f}', {'wgsl': s_}, True)
             else:
                 ctx.replayed_ok += 1
-    # native fault scenarios, all of them, below and above the pipe buffer (they must all return the program)
+    native_all(ctx, seen)
+    ctx.extra['violations_by_scenario'] = seen
+
+
+def native_all(ctx, seen=None):
+    """every fault scenario on the real build, below and above the pipe buffer: all must return the program"""
+    seen = {} if seen is None else seen
     for sc in FAKES:
-        for big in ((False, True) if ctx.tier == 'thorough' or sc in ('exit0_without_reading', 'killed') else (False,)):
-            r, r0 = native(ctx, sc, big)
+        for big in ((False, True) if ctx.tier == 'thorough' or sc in ('exit0_without_reading', 'killed', 'killed_after_partial_output') else (False,)):
+            r, r0 = native_run(ctx, sc, big)
             good = 'ok' in r and 'ok' in r0 and same_program(ctx, r['ok'], r0['ok'])
             ctx.sample({'scenario': sc, 'output_over_64KiB': big, 'returns_same_program': good})
             if good:
@@ -229,8 +243,7 @@ def run(ctx):
                 if key not in seen:
                     seen[key] = 1
                     ctx.report(key, f'native fault scenario "{sc}" (big={big}): {str(r)[:160]}', {'scenario': sc, 'fake_rustfmt': FAKES[sc]}, True)
-    ctx.extra['violations_by_scenario'] = seen
 
 
 if __name__ == '__main__':
-    sys.exit(main('C19', run))
+    sys.exit(main('C19', run, native_all))
